@@ -77,8 +77,10 @@ type ACfg struct {
 }
 
 type ADev struct {
-	Vals map[string]string `json:"vals"`
-	Boot int               `json:"boot"`
+	Vals   map[string]string `json:"vals"`
+	Boot   int               `json:"boot"`
+	MaxEID int               `json:"maxeid"`
+	FailQ  []int             `json:"failq"`
 }
 
 type ADevReq struct {
@@ -356,7 +358,8 @@ func (w *World) snapshot(l *Line) error {
 	}
 	for t, d := range w.devices {
 		vals, boot := d.Snapshot()
-		l.Dev[t] = ADev{Vals: vals, Boot: boot}
+		maxeid, fq := d.arbState()
+		l.Dev[t] = ADev{Vals: vals, Boot: boot, MaxEID: maxeid, FailQ: fq}
 	}
 	if w.proc != nil {
 		for _, cn := range w.proc.cord {
